@@ -3,6 +3,12 @@
 import json
 PROPS = [json.loads(l) for l in open('/verif/properties.jsonl')]
 CLAIMED = {
+ "C06": dict(
+    category="proof",
+    text="Coq theorems over ANY two member WCS: C06_outputs (the combined wcs gives the primary's world values followed by the extra coordinates', each what the separate description gives for the same array element), C06_roundtrip (world -> pixel returns the position, on and between grid points, when both members round-trip and every extra-coord pixel dimension maps to a cube axis), C06_matrix (a matrix entry is set iff a member slot mapped to that pixel axis is set), C06_types (array_axis_physical_types lists per array axis, in array order, exactly the types whose matrix entry is set, in world order). Tied to /repo by the exact wrapper-expression evaluator of C14 on cubes over an invertible integer probe WCS with 0-4 linear lookup tables, plain / sliced / rebinned, at grid and k/4 positions, plus a direct oracle (separate descriptions, round trip, finite-difference matrix, physical types).",
+    design_ref="DESIGN.md §5.6",
+    note="Trusted: Coq kernel + VM; Model/M_Wrappers.v compound transcription (shared with C14); lookup tables are linear and single-axis so that lin_wcs is their exact twin; exactness of the members' matrices holds by construction (probe, tables) and is a hypothesis for FITS WCS.",
+    technique="Coq proof over hand-written Gallina model + vm_compute correspondence check"),
  "C05": dict(
     category="proof",
     text="Coq theorems: C05_dims / C05_shape (each returned array has one dimension per dependent array axis, in increasing array-axis order, of the axis length, +1 for corners), C05_entries (for ANY WCS with a sound correlation matrix every entry equals the WCS value at the centre / corner of any element with those coordinates on the correlated axes: the zeros injected outside the block and index 0 on same-block-uncorrelated axes are harmless), C05_selection / C05_int_axis (the world axes returned are exactly those correlated with a requested array axis or uniquely named by a substring, once each, in world order; anything else refuses). Tied to /repo by an exact correspondence check over every correlation structure up to 3x3 (+ sampled 4x4) realised by integer probe WCS with distinct weights on non-cubic shapes, for wcs / extra_coords / combined_wcs, both corner settings, grouped two-component objects, and a full-grid direct oracle incl. TAN / rotated FITS families and the high-level form (classes, order, numeric agreement).",
